@@ -276,7 +276,7 @@ pub fn gen_op(kind: Kind, r: &mut Rng, st: &mut GenState) -> Option<Op> {
                     st.isas += 1;
                     Op::Isa { s: isa_pool()[r.usize_below(10)] }
                 } else {
-                    let nc = if st.cmos == 0 { 0 } else { small_or_big(r, 3, &[61, 62]) };
+                    let nc = if st.cmos == 0 { 0 } else { small_or_big(r, 3, &[59, 60, 61, 62]) };
                     Op::HartInfo { uid: r.u32b(), isa: r.usize_below(st.isas), cmos: (0..nc).map(|_| r.usize_below(st.cmos)).collect() }
                 }
             }
